@@ -27,7 +27,7 @@ for p in props:
         na.append({"property_id": pid, "reason": (r or {}).get("reason") if r and not r.get("claimed") and r.get("reason") else "check still under construction / not yet validated on the unchanged tree; no claim is made yet"})
 m = {
     "version": 1,
-    "setup_cmd": "cd lean && lake build Haiway hwmodel",
+    "setup_cmd": "cd lean && lake build hwmodel " + " ".join(f"Haiway.Props.{c['property_id']}" for c in checks),
     "hooks": {
         "guard": "HAIWAY_VERIF",
         "enable": "no source hooks: checks import /repo/src in-process with HAIWAY_VERIF=1 set (unused by the library)",
